@@ -1,4 +1,5 @@
 import functools
+import re
 from collections.abc import Sequence
 from typing import cast
 
@@ -223,7 +224,27 @@ def compare_var(p1: Place, p2: Place) -> int:
     We need to output linear variables at the end, so we do a lexicographic ordering of
     linearity and name.
     """
-    return -1 if (not p1.ty.droppable, str(p1)) < (not p2.ty.droppable, str(p2)) else 1
+    return (
+        -1
+        if (not p1.ty.droppable, _natural_key(str(p1)))
+        < (not p2.ty.droppable, _natural_key(str(p2)))
+        else 1
+    )
+
+
+def _natural_key(name: str) -> list[tuple[int, int, str]]:
+    """Sort key that compares runs of digits numerically.
+
+    Temporary variables are numbered by a counter that is global to the interpreter
+    session (`%tmp9`, `%tmp10`, ...). A plain string comparison would order them
+    differently depending on how many digits the counter currently has, making the port
+    order of the emitted Hugr depend on what was compiled before.
+    """
+    return [
+        (0, int(part), "") if part.isdigit() else (1, 0, part)
+        for part in re.split(r"(\d+)", name)
+        if part
+    ]
 
 
 def sort_vars(row: Row[Place]) -> list[Place]:
